@@ -556,7 +556,7 @@ def alloc_taint(an, rep, crate=None, roots=None, floor=True):
             if info["key"] not in SIZE_SINKS:
                 continue
             n += 1
-            ex = ex or mir.Expr(b)
+            ex = ex or mir.Expr(b, core)
             arg = ex.operand(t["args"][SIZE_ARG.get(info["key"], 0)])
             why = bounded_size(arg)
             if why:
